@@ -87,7 +87,7 @@ def _retry(kindname):
         h.interp.fault_plan = {"fail_call": 0, "kind": kindname}
 
         def rp(ev):
-            return {"target": "verif_replays:fit_model_retry", "args": [kindname], "check": "result['exc'] is None and result['n_calls'] == 2"}
+            return {"target": "verif_replays:fit_model_retry", "args": [kindname], "check": "result['exc'] is None and result['n_calls'] == 2 and result['callers_solver_is_fitted']"}
 
         kind, r = h.call_method(self, "fit_model", model, X, y, tau, w, True)
         if kind == "raise":
